@@ -50,3 +50,9 @@ PROPS["C09"] = {"pkgs": [("./internal/server", "TestVerif_C09"), (".", "TestVeri
                                  "is exercised by the correspondence runs only",
                                  "a real-time watchdog turns a busy loop into a reported failure"],
                 "assumptions": []}
+
+PROPS["C16"] = {"pkgs": [(".", "TestVerif_C16")],
+                "trusted_base": ["TCP is simulated by in-memory streams (dial outcomes are the model's environment input; connection ids are the "
+                                 "server's random choices, observed and fed to the model)",
+                                 "io.Copy is taken to be the identity relay; the byte-content claim rests on the correspondence runs"],
+                "assumptions": []}
